@@ -964,3 +964,441 @@ Definition ptr_inside (m : segs) (p : Ptr) : Prop :=
              else if p_bit p then p_off p + (p_len p + 7) / 8 <= zlen (seg_of m p)
              else p_off p + totalSize (p_size p) * p_len p <= zlen (seg_of m p)
   end.
+
+Lemma seg_at_nth : forall m d x, seg_at m d = Some x ->
+  x = nth (Z.to_nat d) m [] /\ 0 <= d < Z.of_nat (length m).
+Proof.
+  intros m d x H. unfold seg_at in H.
+  destruct ((d <? 0) || (Z.of_nat (length m) <=? d)) eqn:E; [discriminate|].
+  inversion H. split; [reflexivity|lia].
+Qed.
+
+Lemma target_ptr_inside : forall m d cs t, tgt_wf t -> tgt_inside m t -> ptr_inside m (ptr_of_target d cs t).
+Proof.
+  intros m d cs t W I V. destruct t as [|i|sg a dw pc|sg a e n dw pc].
+  - discriminate.
+  - exact Logic.I.
+  - cbn [tgt_wf tgt_inside] in *. destruct I as (s & Hs & Ha & Hb).
+    apply seg_at_nth in Hs. destruct Hs as [-> Hr].
+    unfold ptr_of_target, seg_of, zlen. unfold segs, Reader.seg in *. cbn [p_kind p_off p_size p_seg].
+    rewrite totalSize_words by lia. unfold blen in Hb. lia.
+  - cbn [tgt_wf tgt_inside] in *. destruct I as (s & Hs & Ha & Hb).
+    destruct W as (_ & He & Hn & Hdw & Hpc & Hz).
+    apply seg_at_nth in Hs. destruct Hs as [-> Hr].
+    unfold ptr_of_target, seg_of, zlen. unfold segs, Reader.seg in *. cbn [p_kind p_off p_size p_seg p_comp p_bit p_len].
+    unfold blen in Hb. split; [lia|]. split; [lia|].
+    destruct (e =? 7) eqn:E7; rewrite ?E7 in Hb.
+    + unfold esz_size. rewrite E7. rewrite totalSize_words by lia.
+      replace (8 * (dw + pc) * n) with (8 * (n * (dw + pc))) by ring. lia.
+    + destruct (Hz ltac:(lia)) as (-> & -> & Hn').
+      destruct (e =? 1) eqn:E1.
+      * unfold list_bytes in Hb. destruct (e =? 0) eqn:E0; [lia|]. rewrite E1 in Hb. lia.
+      * assert (He' : e = 0 \/ e = 2 \/ e = 3 \/ e = 4 \/ e = 5 \/ e = 6) by lia.
+        clear V. unfold esz_size, esz_bytes, list_bytes in *.
+        destruct He' as [?|[?|[?|[?|[?|?]]]]]; subst e; cbn [Z.eqb Pos.eqb] in *;
+        match goal with |- context [totalSize ?x] =>
+          let v := eval vm_compute in (totalSize x) in change (totalSize x) with v end; lia.
+Qed.
+
+(* soundness restated on the returned Ptr: the bytes it designates lie inside the segments *)
+Theorem read_ptr_inside : forall m rl sid s wa depth p rl',
+  bytes_ok m -> lookup_segment m sid = Ok s -> 0 <= rl ->
+  readPtr true m rl sid s (8 * wa) depth = (Ok p, rl') -> ptr_inside m p.
+Proof.
+  intros m rl sid s wa depth p rl' Hb Hl Hrl H.
+  destruct (read_ptr_sound _ _ _ _ _ _ _ _ Hb Hl Hrl H) as (t & SR & W & I & C).
+  destruct (dfar_zero_pad m sid wa).
+  - destruct C as [-> _]. intro V. discriminate.
+  - destruct C as (-> & _). apply target_ptr_inside; assumption.
+Qed.
+
+(* ------------------------------------------------------------------ accessors_spec: structs *)
+(* a struct as the accessors hold it, and the view the specification gives of it *)
+Definition ptr_of_sview (d : Z) (member : bool) (v : sview) : Ptr :=
+  mkPtr true (sv_seg v) (sv_boff v) 0 (mkOS (sv_db v) (sv_pc v)) d KStruct false false member.
+
+Definition sview_ok (m : list (list Z)) (v : sview) : Prop :=
+  exists s, seg_at m (sv_seg v) = Some s /\ seg_small s /\ 0 <= sv_boff v /\
+            0 <= sv_db v <= 524280 /\ 0 <= sv_pc v < 65536 /\
+            sv_boff v + sv_db v + 8 * sv_pc v <= blen s /\
+            (sv_pc v = 0 \/ (sv_boff v + sv_db v) mod 8 = 0).
+
+Lemma seg_of_sview : forall (m : segs) d mem v s, seg_at m (sv_seg v) = Some s ->
+  seg_of m (ptr_of_sview d mem v) = s /\ seg_or_nil m (sv_seg v) = s.
+Proof.
+  intros m d mem v s H. unfold seg_or_nil. rewrite H. split; [|reflexivity].
+  apply seg_at_nth in H. destruct H as [-> _]. reflexivity.
+Qed.
+
+(* Uint8/16/32/64 at any byte offset: the little-endian value of the field if it lies inside
+   the data section, else the default 0 *)
+Theorem struct_uint_spec : forall m d mem v off n,
+  sview_ok m v -> 0 <= off -> (n = 1 \/ n = 2 \/ n = 4 \/ n = 8) -> off + n < 4294967296 ->
+  struct_uint m (ptr_of_sview d mem v) off n = Ok (sv_uint m v off n).
+Proof.
+  intros m d mem v off n (s & Hs & Hsm & Hb & Hdb & Hpc & Hin & _) Hoff Hn Hlt.
+  destruct (seg_of_sview m d mem v s Hs) as [E1 E2].
+  unfold struct_uint, sv_uint. rewrite E1, E2. unfold dataAddress, ptr_of_sview.
+  cbn [p_valid p_size DataSize negb orb p_off].
+  unfold seg_small, maxSegmentSize in Hsm.
+  assert (Hu : u32 (off + n) = off + n) by (unfold u32; lia). rewrite Hu.
+  destruct (off + n >? sv_db v) eqn:G; cbn [bind].
+  - destruct ((0 <=? off) && (off + n <=? sv_db v)) eqn:S; [lia|reflexivity].
+  - destruct ((0 <=? off) && (off + n <=? sv_db v)) eqn:S; [|lia].
+    unfold addOffset. destruct (off >=? 524288) eqn:O; [lia|]. cbn [bind].
+    assert (Hu2 : u32 (sv_boff v + off) = sv_boff v + off) by (unfold u32; lia). rewrite Hu2.
+    apply readUintN_ok; lia.
+Qed.
+
+Lemma testbit_div : forall b k, 0 <= k -> Z.testbit b k = ((b / 2 ^ k) mod 2 =? 1).
+Proof.
+  intros b k Hk. rewrite Z.testbit_odd, Z.shiftr_div_pow2 by exact Hk.
+  rewrite (Zmod_odd (b / 2 ^ k)). destruct (Z.odd (b / 2 ^ k)); reflexivity.
+Qed.
+
+(* Bit(n): bit n of the data section counting from the least significant bit of byte 0,
+   false beyond the section *)
+Theorem struct_bit_spec : forall m d mem v n,
+  sview_ok m v -> 0 <= n < 4294967296 ->
+  struct_bit m (ptr_of_sview d mem v) n = Ok (sv_bit m v n).
+Proof.
+  intros m d mem v n (s & Hs & Hsm & Hb & Hdb & Hpc & Hin & _) Hn.
+  destruct (seg_of_sview m d mem v s Hs) as [E1 E2].
+  unfold struct_bit, sv_bit. rewrite E1, E2. unfold ptr_of_sview.
+  cbn [p_valid p_size DataSize p_off andb].
+  unfold seg_small, maxSegmentSize in Hsm.
+  assert (Hu : u32 (sv_db v * 8) = 8 * sv_db v) by (unfold u32; lia). rewrite Hu.
+  destruct (n <? 8 * sv_db v) eqn:G; cbn [negb].
+  2:{ rewrite Bool.andb_false_r. reflexivity. }
+  rewrite Bool.andb_true_r. destruct (0 <=? n) eqn:S; [|lia].
+  unfold addOffset, bitOffset_offset. destruct (n / 8 >=? 524288) eqn:O; [lia|].
+  assert (Hu2 : u32 (sv_boff v + n / 8) = sv_boff v + n / 8) by (unfold u32; lia). rewrite Hu2.
+  rewrite readUintN_ok by lia. cbn [bind]. change (Z.to_nat 1) with 1%nat. cbn [le_num].
+  rewrite testbit_div by lia. rewrite Z.mul_0_r, Z.add_0_r. reflexivity.
+Qed.
+
+(* Ptr(i): null beyond the pointer section, else the pointer stored in word sv_ptr_word v i,
+   which is where the specification's sv_ptr resolves *)
+Theorem struct_ptr_spec : forall c m rl d mem v i,
+  sview_ok m v -> 0 <= i ->
+  struct_ptr c m rl (ptr_of_sview d mem v) i =
+    (if i <? sv_pc v
+     then readPtr (cfg_strict c) m rl (sv_seg v) (seg_or_nil m (sv_seg v)) (8 * sv_ptr_word v i) d
+     else (Ok nullPtr, rl))
+  /\ sv_ptr false m v i = (if i <? sv_pc v then spec_resolve false m (sv_seg v) (sv_ptr_word v i) else Some TgtNull).
+Proof.
+  intros c m rl d mem v i (s & Hs & Hsm & Hb & Hdb & Hpc & Hin & Hal) Hi.
+  destruct (seg_of_sview m d mem v s Hs) as [E1 E2].
+  split.
+  2:{ unfold sv_ptr. destruct (0 <=? i) eqn:G; [reflexivity|lia]. }
+  unfold struct_ptr. rewrite E1, E2. unfold ptr_of_sview. cbn [p_valid p_size PointerCount negb orb].
+  destruct (i >=? sv_pc v) eqn:G; destruct (i <? sv_pc v) eqn:G2; try lia; [reflexivity|].
+  unfold pointerAddress, ptr_of_sview. cbn [p_off p_size DataSize p_seg p_depth].
+  unfold seg_small, maxSegmentSize in Hsm. unfold addSize, element, maxSegmentSize. cbv zeta.
+  destruct (sv_boff v + sv_db v >? 4294967288) eqn:A1; [lia|].
+  destruct ((sv_boff v + sv_db v + i * 8 >? 4294967288) || (sv_boff v + sv_db v + i * 8 <? 0)) eqn:A2; [lia|].
+  unfold sv_ptr_word. f_equal. lia.
+Qed.
+
+Theorem struct_hasptr_spec : forall m d mem v i,
+  sview_ok m v -> 0 <= i ->
+  struct_hasptr m (ptr_of_sview d mem v) i = Ok (sv_hasptr m v i).
+Proof.
+  intros m d mem v i (s & Hs & Hsm & Hb & Hdb & Hpc & Hin & Hal) Hi.
+  destruct (seg_of_sview m d mem v s Hs) as [E1 E2].
+  unfold struct_hasptr, sv_hasptr. rewrite E1, E2. unfold ptr_of_sview. cbn [p_valid p_size PointerCount negb orb].
+  destruct (i >=? sv_pc v) eqn:G.
+  { destruct ((0 <=? i) && (i <? sv_pc v)) eqn:S; [lia|reflexivity]. }
+  destruct ((0 <=? i) && (i <? sv_pc v)) eqn:S; [|lia]. cbn [andb].
+  unfold pointerAddress, ptr_of_sview. cbn [p_off p_size DataSize].
+  unfold seg_small, maxSegmentSize in Hsm. unfold addSize, element, maxSegmentSize. cbv zeta.
+  destruct (sv_boff v + sv_db v >? 4294967288) eqn:A1; [lia|].
+  destruct ((sv_boff v + sv_db v + i * 8 >? 4294967288) || (sv_boff v + sv_db v + i * 8 <? 0)) eqn:A2; [lia|].
+  replace (sv_boff v + sv_db v + i * 8) with (8 * sv_ptr_word v i) by (unfold sv_ptr_word; lia).
+  rewrite readRawPointer_ok; [reflexivity| | |]; unfold sv_ptr_word; lia.
+Qed.
+
+(* ------------------------------------------------------------------ accessors_spec: lists *)
+Definition list_ok (m : list (list Z)) (l : target) : Prop :=
+  match l with
+  | TgtList sg a e n dw pc =>
+    tgt_wf l /\ list_repr l /\
+    exists s, seg_at m sg = Some s /\ seg_small s /\
+              (if e =? 7 then 1 <= a /\ 8 * (a + n * (dw + pc)) <= blen s
+               else 8 * a + list_bytes e n <= blen s)
+  | _ => False
+  end.
+
+Lemma seg_of_list : forall (m : segs) d cs sg a e n dw pc s, seg_at m sg = Some s ->
+  seg_of m (ptr_of_target d cs (TgtList sg a e n dw pc)) = s /\ seg_or_nil m sg = s.
+Proof.
+  intros m d cs sg a e n dw pc s H. unfold seg_or_nil. rewrite H. split; [|reflexivity].
+  apply seg_at_nth in H. destruct H as [-> _]. reflexivity.
+Qed.
+
+Lemma elem_index_bound : forall i n k, 0 <= i < n -> 0 <= k -> i * k + k <= n * k.
+Proof. intros. nia. Qed.
+
+(* UInt8/16/32/64 List.At(i): a list of that element size is read directly; a struct list
+   is read through its elements' first data field (upgrade); anything else reads as 0 *)
+Theorem list_uint_at_spec : forall m d cs l i w,
+  list_ok m l -> (w = 1 \/ w = 2 \/ w = 4 \/ w = 8) ->
+  match l with TgtList _ _ _ n _ _ => 0 <= i < n | _ => False end ->
+  list_uint_at true m (ptr_of_target d cs l) i w = Ok (l_uint m l i w).
+Proof.
+  intros m d cs l i w OK Hw Hi. destruct l as [| | |sg a e n dw pc]; try contradiction.
+  destruct OK as (W & LR & s & Hs & Hsm & Hin). cbn [tgt_wf list_repr] in W, LR.
+  destruct W as (Ha & He & Hn & Hdw & Hpc & Hz).
+  destruct (seg_of_list m d cs sg a e n dw pc s Hs) as [E1 E2].
+  unfold list_uint_at, l_uint. rewrite E1, E2.
+  unfold primitiveElem, ptr_of_target. cbn [p_valid p_len p_bit p_comp p_size p_off negb orb].
+  unfold seg_small, maxSegmentSize in Hsm.
+  destruct ((i <? 0) || (i >=? n)) eqn:R; [lia|].
+  destruct ((0 <=? i) && (i <? n)) eqn:R2; [|lia].
+  destruct (e =? 7) eqn:E7.
+  - (* struct list read as a primitive list *)
+    destruct (e =? 1) eqn:E1b; [lia|]. cbn [negb andb orb].
+    unfold esz_size. rewrite E7. cbn [DataSize PointerCount].
+    rewrite totalSize_words by lia.
+    assert (P0 : (pc <? 0) = false) by lia. rewrite P0, Bool.orb_false_r.
+    pose proof (elem_index_bound i n (dw + pc) Hi ltac:(lia)) as B.
+    destruct Hin as [Ha1 Hin].
+    destruct (8 * dw <? w) eqn:D.
+    + destruct (w <=? 8 * dw) eqn:D2; [lia|reflexivity].
+    + destruct (w <=? 8 * dw) eqn:D2; [|lia].
+      unfold element, maxSegmentSize. cbv zeta.
+      replace (8 * a + i * (8 * (dw + pc))) with (8 * (a + i * (dw + pc))) by ring.
+      set (Q := i * (dw + pc)) in *. set (N := n * (dw + pc)) in *.
+      destruct ((8 * (a + Q) >? 4294967288) || (8 * (a + Q) <? 0)) eqn:X; [lia|].
+      change (0 <? 0) with false. cbv iota.
+      apply readUintN_ok; lia.
+  - destruct (Hz ltac:(lia)) as (-> & -> & _).
+    assert (He' : e = 0 \/ e = 1 \/ e = 2 \/ e = 3 \/ e = 4 \/ e = 5 \/ e = 6) by lia.
+    unfold esz_size, esz_bytes, list_bytes in *. unfold os_eqb, element, maxSegmentSize.
+    destruct He' as [?|[?|[?|[?|[?|[?|?]]]]]]; subst e;
+    destruct Hw as [?|[?|[?|?]]]; subst w;
+    cbn [Z.eqb Pos.eqb negb andb orb DataSize PointerCount] in *; try reflexivity;
+    match goal with |- context [totalSize ?x] =>
+      let v := eval vm_compute in (totalSize x) in change (totalSize x) with v end;
+    cbv zeta;
+    match goal with |- context [(?x >? 4294967288) || (?x <? 0)] =>
+      destruct ((x >? 4294967288) || (x <? 0)) eqn:X; [lia|] end;
+    apply readUintN_ok; lia.
+Qed.
+
+(* PointerList.At(i): the pointer stored in element i of a pointer list; for a struct list
+   (upgrade) the FIRST POINTER of element i, i.e. the word after its data section; any other
+   list is an error.  [l_ptr] of the specification resolves the same word. *)
+Theorem ptrlist_at_spec : forall c m rl d cs l i,
+  list_ok m l ->
+  match l with TgtList _ _ _ n _ _ => 0 <= i < n | _ => False end ->
+  match l with
+  | TgtList sg a e n dw pc =>
+    if e =? 6 then
+      ptrlist_at c true m rl (ptr_of_target d cs l) i = readPtr (cfg_strict c) m rl sg (seg_or_nil m sg) (8 * (a + i)) d
+      /\ l_ptr false m l i = spec_resolve false m sg (a + i)
+    else if (e =? 7) && (1 <=? pc) then
+      ptrlist_at c true m rl (ptr_of_target d cs l) i =
+        readPtr (cfg_strict c) m rl sg (seg_or_nil m sg) (8 * (a + i * (dw + pc) + dw)) d
+      /\ l_ptr false m l i = spec_resolve false m sg (a + i * (dw + pc) + dw)
+    else ptrlist_at c true m rl (ptr_of_target d cs l) i = (Err, rl) /\ l_ptr false m l i = None
+  | _ => False
+  end.
+Proof.
+  intros c m rl d cs l i OK Hi. destruct l as [| | |sg a e n dw pc]; try contradiction.
+  destruct OK as (W & LR & s & Hs & Hsm & Hin). cbn [tgt_wf list_repr] in W, LR.
+  destruct W as (Ha & He & Hn & Hdw & Hpc & Hz).
+  destruct (seg_of_list m d cs sg a e n dw pc s Hs) as [E1 E2].
+  unfold ptrlist_at, l_ptr. rewrite E1, E2.
+  unfold primitiveElem, ptr_of_target. cbn [p_valid p_len p_bit p_comp p_size p_off p_seg p_depth negb orb].
+  unfold seg_small, maxSegmentSize in Hsm.
+  destruct ((i <? 0) || (i >=? n)) eqn:R; [lia|].
+  destruct ((0 <=? i) && (i <? n)) eqn:R2; [|lia].
+  destruct (e =? 6) eqn:E6.
+  - assert (e = 6) by lia. subst e. destruct (Hz ltac:(lia)) as (-> & -> & _).
+    unfold esz_size, list_bytes in *. cbn [Z.eqb Pos.eqb negb andb orb] in *.
+    change (os_eqb (mkOS 0 1) (mkOS 0 1)) with true. cbn [negb].
+    change (totalSize (mkOS 0 1)) with 8. unfold element, maxSegmentSize. cbv zeta.
+    destruct ((8 * a + i * 8 >? 4294967288) || (8 * a + i * 8 <? 0)) eqn:X; [lia|].
+    replace (8 * a + i * 8) with (8 * (a + i)) by lia. split; reflexivity.
+  - destruct (e =? 7) eqn:E7; cbn [andb].
+    + destruct (e =? 1) eqn:E1b; [lia|]. cbn [negb andb orb].
+      unfold esz_size. rewrite E7. cbn [DataSize PointerCount].
+      rewrite totalSize_words by lia.
+      assert (D0 : (8 * dw <? 0) = false) by lia. rewrite D0. cbn [orb].
+      destruct (1 <=? pc) eqn:P1.
+      * destruct (pc <? 1) eqn:P2; [lia|].
+        pose proof (elem_index_bound i n (dw + pc) Hi ltac:(lia)) as B.
+        destruct Hin as [Ha1 Hin].
+        unfold element, addSize, maxSegmentSize. cbv zeta.
+        replace (8 * a + i * (8 * (dw + pc))) with (8 * (a + i * (dw + pc))) by ring.
+        set (Q := i * (dw + pc)) in *. set (N := n * (dw + pc)) in *.
+        destruct ((8 * (a + Q) >? 4294967288) || (8 * (a + Q) <? 0)) eqn:X; [lia|].
+        change (0 <? 1) with true. cbv iota.
+        destruct (8 * (a + Q) + 8 * dw >? 4294967288) eqn:X2; [lia|].
+        replace (8 * (a + Q) + 8 * dw) with (8 * (a + Q + dw)) by lia. split; reflexivity.
+      * destruct (pc <? 1) eqn:P2; [|lia]. split; reflexivity.
+    + destruct (Hz ltac:(lia)) as (-> & -> & _).
+      destruct (e =? 1) eqn:E1b; [split; reflexivity|]. cbn [negb andb orb].
+      assert (He' : e = 0 \/ e = 2 \/ e = 3 \/ e = 4 \/ e = 5) by lia.
+      unfold esz_size, esz_bytes, os_eqb.
+      destruct He' as [?|[?|[?|[?|?]]]]; subst e; cbn [Z.eqb Pos.eqb negb andb orb DataSize PointerCount];
+      split; reflexivity.
+Qed.
+
+(* BitList.At(i) *)
+Theorem bitlist_at_spec : forall m d cs l i,
+  list_ok m l ->
+  match l with TgtList _ _ _ n _ _ => 0 <= i < n | _ => False end ->
+  bitlist_at true m (ptr_of_target d cs l) i = Ok (l_bit m l i).
+Proof.
+  intros m d cs l i OK Hi. destruct l as [| | |sg a e n dw pc]; try contradiction.
+  destruct OK as (W & LR & s & Hs & Hsm & Hin). cbn [tgt_wf list_repr] in W, LR.
+  destruct W as (Ha & He & Hn & Hdw & Hpc & Hz).
+  destruct (seg_of_list m d cs sg a e n dw pc s Hs) as [E1 E2].
+  unfold bitlist_at, l_bit. rewrite E1, E2.
+  unfold ptr_of_target. cbn [p_valid p_len p_bit p_off negb orb].
+  unfold seg_small, maxSegmentSize in Hsm.
+  destruct ((i <? 0) || (i >=? n)) eqn:R; [lia|].
+  destruct ((0 <=? i) && (i <? n)) eqn:R2; [|lia]. cbn [andb].
+  destruct (e =? 1) eqn:E1b; cbn [negb]; [|reflexivity].
+  assert (e = 1) by lia. subst e. unfold list_bytes in Hin. cbn [Z.eqb Pos.eqb] in Hin.
+  unfold bitOffset_offset.
+  assert (Hu : u32 (8 * a + i / 8) = 8 * a + i / 8) by (unfold u32; lia). rewrite Hu.
+  rewrite readUintN_ok by lia. cbn [bind]. change (Z.to_nat 1) with 1%nat. cbn [le_num].
+  rewrite testbit_div by lia. rewrite Z.mul_0_r, Z.add_0_r. reflexivity.
+Qed.
+
+(* List.Struct(i): a struct list directly; a list of primitives or pointers is read as a list
+   of structs with that single field (upgrade the other way); not a bit list *)
+Theorem list_struct_spec : forall m d cs l i,
+  list_ok m l ->
+  match l with TgtList _ _ _ n _ _ => 0 <= i < n | _ => False end ->
+  list_struct true (ptr_of_target d cs l) i =
+  Ok (match l_struct l i with
+      | Some v => ptr_of_sview (if d =? 0 then 0 else uint_dec d) true v
+      | None => nullPtr
+      end).
+Proof.
+  intros m d cs l i OK Hi. destruct l as [| | |sg a e n dw pc]; try contradiction.
+  destruct OK as (W & LR & s & Hs & Hsm & Hin). cbn [tgt_wf list_repr] in W, LR.
+  destruct W as (Ha & He & Hn & Hdw & Hpc & Hz).
+  unfold list_struct, l_struct.
+  unfold ptr_of_target. cbn [p_valid p_len p_bit p_off p_size p_seg p_depth negb orb andb].
+  unfold seg_small, maxSegmentSize in Hsm.
+  destruct ((i <? 0) || (i >=? n)) eqn:R; [lia|].
+  destruct ((0 <=? i) && (i <? n)) eqn:R2; [|lia].
+  destruct (e =? 7) eqn:E7.
+  - destruct (e =? 1) eqn:E1b; [lia|].
+    unfold esz_size. rewrite E7. rewrite totalSize_words by lia.
+    pose proof (elem_index_bound i n (dw + pc) Hi ltac:(lia)) as B. destruct Hin as [Ha1 Hin].
+    unfold element, maxSegmentSize. cbv zeta.
+    replace (8 * a + i * (8 * (dw + pc))) with (8 * (a + i * (dw + pc))) by ring.
+    set (Q := i * (dw + pc)) in *. set (N := n * (dw + pc)) in *.
+    destruct ((8 * (a + Q) >? 4294967288) || (8 * (a + Q) <? 0)) eqn:X; [lia|]. reflexivity.
+  - destruct (Hz ltac:(lia)) as (-> & -> & _).
+    destruct (e =? 1) eqn:E1b; [reflexivity|].
+    assert (He' : e = 0 \/ e = 2 \/ e = 3 \/ e = 4 \/ e = 5 \/ e = 6) by lia.
+    unfold esz_size, esz_bytes, list_bytes in *. unfold element, maxSegmentSize.
+    destruct He' as [?|[?|[?|[?|[?|?]]]]]; subst e;
+    cbn [Z.eqb Pos.eqb] in *;
+    match goal with |- context [totalSize ?x] =>
+      let v := eval vm_compute in (totalSize x) in change (totalSize x) with v end;
+    cbv zeta;
+    match goal with |- context [(?x >? 4294967288) || (?x <? 0)] =>
+      destruct ((x >? 4294967288) || (x <? 0)) eqn:X; [lia|] end;
+    unfold ptr_of_sview; cbn [sv_seg sv_boff sv_db sv_pc]; do 2 f_equal; lia.
+Qed.
+
+(* ------------------------------------------------------------------ text and data *)
+Lemma skipn_nth_cons : forall (s : list Z) k, (k < length s)%nat -> skipn k s = nth k s 0 :: skipn (S k) s.
+Proof.
+  induction s as [|x s IH]; intros k H; [cbn in H; lia|].
+  destruct k; [reflexivity|]. cbn [skipn nth]. apply IH. cbn in H. lia.
+Qed.
+
+Lemma firstn_skipn_bytes : forall (s : list Z) k a, 0 <= a -> a + Z.of_nat k <= blen s ->
+  firstn k (skipn (Z.to_nat a) s) = map (byte_at s) (zseq a k).
+Proof.
+  intros s k. induction k as [|k IH]; intros a Ha Hb; [reflexivity|].
+  unfold blen in Hb. rewrite skipn_nth_cons by lia. cbn [firstn zseq map]. f_equal.
+  - unfold byte_at. destruct (a <? 0) eqn:E; [lia|reflexivity].
+  - replace (S (Z.to_nat a)) with (Z.to_nat (a + 1)) by lia. apply IH; unfold blen; lia.
+Qed.
+
+Lemma map_zseq_shift : forall (f : Z -> Z) a k j, map (fun i => f (a + i)) (zseq j k) = map f (zseq (a + j) k).
+Proof.
+  intros f a k. induction k as [|k IH]; intros j; [reflexivity|].
+  cbn [zseq map]. f_equal. rewrite IH. f_equal. f_equal. lia.
+Qed.
+
+Lemma zseq_snoc : forall k a, zseq a (S k) = zseq a k ++ [a + Z.of_nat k].
+Proof.
+  induction k as [|k IH]; intros a.
+  - cbn. f_equal. lia.
+  - change (zseq a (S (S k))) with (a :: zseq (a + 1) (S k)). rewrite IH. cbn [zseq app]. f_equal. f_equal. f_equal. lia.
+Qed.
+
+Lemma slice_bytes : forall s a n, 0 <= a -> 0 <= n -> a + n <= blen s -> a + n < 4294967296 ->
+  slice s a n = Ok (map (byte_at s) (zseq a (Z.to_nat n))).
+Proof.
+  intros s a n Ha Hn Hb Hs. unfold slice, addSizeUnchecked, u32. unfold blen in Hb.
+  assert (He : (a + n) mod 4294967296 = a + n) by lia. rewrite He.
+  destruct ((0 <=? a) && (a <=? a + n) && (a + n <=? zlen s)) eqn:E; [|unfold zlen in E; lia].
+  replace (a + n - a) with n by lia. rewrite firstn_skipn_bytes; [reflexivity|lia|unfold blen; lia].
+Qed.
+
+(* Data: the bytes of a byte list (nil for anything else) *)
+Theorem ptr_data_spec : forall m d cs l, list_ok m l ->
+  ptr_data m (ptr_of_target d cs l) = Ok (l_data m l).
+Proof.
+  intros m d cs l OK. destruct l as [| | |sg a e n dw pc]; try contradiction.
+  destruct OK as (W & LR & s & Hs & Hsm & Hin). cbn [tgt_wf list_repr] in W, LR.
+  destruct W as (Ha & He & Hn & Hdw & Hpc & Hz).
+  destruct (seg_of_list m d cs sg a e n dw pc s Hs) as [E1 E2].
+  unfold ptr_data, l_data. rewrite E1, E2.
+  unfold isOneByteList, is_list, ptr_of_target. cbn [p_valid p_kind p_size p_comp p_off p_len andb].
+  unfold seg_small, maxSegmentSize in Hsm.
+  destruct (e =? 2) eqn:E2b.
+  - assert (e = 2) by lia. subst e. destruct (Hz ltac:(lia)) as (-> & -> & _).
+    unfold list_bytes in Hin. cbn [Z.eqb Pos.eqb] in *.
+    change (os_isOneByte (esz_size 2 0 0)) with true. cbn [negb andb].
+    assert (Hu : u32 n = n) by (unfold u32; lia). rewrite Hu.
+    rewrite slice_bytes by lia. cbn [bind]. rewrite map_zseq_shift. rewrite Z.add_0_r. reflexivity.
+  - destruct (e =? 7) eqn:E7; [rewrite Bool.andb_false_r; reflexivity|].
+    destruct (Hz ltac:(lia)) as (-> & -> & _).
+    assert (He' : e = 0 \/ e = 1 \/ e = 3 \/ e = 4 \/ e = 5 \/ e = 6) by lia.
+    destruct He' as [?|[?|[?|[?|[?|?]]]]]; subst e; reflexivity.
+Qed.
+
+(* Text: the bytes before the terminating NUL; rejected when the list is empty or does not end
+   with NUL *)
+Theorem ptr_text_spec : forall m d cs l, list_ok m l ->
+  ptr_text m (ptr_of_target d cs l) = Ok (l_text m l).
+Proof.
+  intros m d cs l OK. destruct l as [| | |sg a e n dw pc]; try contradiction.
+  destruct OK as (W & LR & s & Hs & Hsm & Hin). cbn [tgt_wf list_repr] in W, LR.
+  destruct W as (Ha & He & Hn & Hdw & Hpc & Hz).
+  destruct (seg_of_list m d cs sg a e n dw pc s Hs) as [E1 E2].
+  unfold ptr_text, l_text. rewrite E1, E2.
+  unfold isOneByteList, is_list, ptr_of_target. cbn [p_valid p_kind p_size p_comp p_off p_len andb].
+  unfold seg_small, maxSegmentSize in Hsm.
+  destruct (e =? 2) eqn:E2b.
+  - assert (e = 2) by lia. subst e. destruct (Hz ltac:(lia)) as (-> & -> & _).
+    unfold list_bytes in Hin. cbn [Z.eqb Pos.eqb] in *.
+    change (os_isOneByte (esz_size 2 0 0)) with true. cbn [negb andb].
+    assert (Hu : u32 n = n) by (unfold u32; lia). rewrite Hu.
+    rewrite slice_bytes by lia. cbn [bind].
+    destruct (Z.to_nat n) as [|k] eqn:Ek.
+    + cbn [zseq map rev]. destruct (1 <=? n) eqn:N1; [lia|reflexivity].
+    + rewrite zseq_snoc, map_app, rev_app_distr. cbn [map rev app].
+      destruct (1 <=? n) eqn:N1; [|lia].
+      replace (8 * a + n - 1) with (8 * a + Z.of_nat k) by lia.
+      destruct (byte_at s (8 * a + Z.of_nat k) =? 0) eqn:Z0; [|reflexivity].
+      rewrite rev_involutive. rewrite map_zseq_shift, Z.add_0_r.
+      replace (Z.to_nat (n - 1)) with k by lia. reflexivity.
+  - destruct (e =? 7) eqn:E7; [rewrite Bool.andb_false_r; reflexivity|].
+    destruct (Hz ltac:(lia)) as (-> & -> & _).
+    assert (He' : e = 0 \/ e = 1 \/ e = 3 \/ e = 4 \/ e = 5 \/ e = 6) by lia.
+    destruct He' as [?|[?|[?|[?|[?|?]]]]]; subst e; reflexivity.
+Qed.
